@@ -141,12 +141,111 @@ pub fn exec(func: &str, a: &mut Args) -> String {
                 s
             }
         }
+        // parts3 <maxhulls> <res> <fill> <concavity> <plane_ds> <hull_ds> <mesh>: per-part bookkeeping of the real VHACD run
+        // (observed inputs as for acd3).  Output: nparts then per part: n min_bb(3) max_bb(3) compute_volume
+        "parts3" => {
+            let maxh = a.u() as u32; let res = a.u() as u32; let fm = a.u(); let conc = a.f();
+            let pds = a.u() as u32; let hds = a.u() as u32;
+            let (pts, idx) = mesh(a);
+            let vox = VoxelSet::voxelize(&pts, &idx, res, fill(fm), false);
+            let mut params = VHACDParameters::default();
+            params.max_convex_hulls = maxh; params.resolution = res; params.fill_mode = fill(fm); params.concavity = conc;
+            params.plane_downsampling = pds; params.convex_hull_downsampling = hds;
+            let pre = fvox(&vox);
+            let _ = verif_tap::take();
+            let vh = VHACD::from_voxels(&params, vox);
+            let dec = verif_tap::take();
+            let mut ds = format!("{}", dec.len());
+            for d in &dec { match d { None => ds.push_str(" 0"), Some((abc, dd)) => ds.push_str(&format!(" 1 {} {}", d3::fv(abc), ff(*dd))) } }
+            let mut s = format!("{}", vh.voxel_parts().len());
+            for p in vh.voxel_parts() {
+                let (lo, hi) = (p.min_bb_voxels(), p.max_bb_voxels());
+                s.push_str(&format!(" {} {} {} {} {} {} {} {}", p.voxels().len(), lo.x, lo.y, lo.z, hi.x, hi.y, hi.z, ff(p.compute_volume())));
+            }
+            format!("{} {} ;; {}", pre, ds, s)
+        }
+        // hullsample3 <res> <fill> <sampling> <mesh>: VoxelSet::compute_convex_hull(sampling) of the whole voxelization.
+        // Output: the voxel set (observed input) ;; nv hull vertices
+        "hullsample3" => {
+            let res = a.u() as u32; let fm = a.u(); let sampling = a.u() as u32;
+            let (pts, idx) = mesh(a);
+            let vox = VoxelSet::voxelize(&pts, &idx, res, fill(fm), false);
+            let pre = fvox(&vox);
+            let (hp, _ht) = vox.compute_convex_hull(sampling);
+            let mut s = format!("{}", hp.len());
+            for p in &hp { s.push(' '); s.push_str(&d3::fp(p)); }
+            format!("{} ;; {}", pre, s)
+        }
         // voxelize3 <res> <fill> <mesh>  → origin scale n (i j k s)*
         "voxelize3" => {
             let res = a.u() as u32; let fm = a.u();
             let (pts, idx) = mesh(a);
             let vox = VoxelSet::voxelize(&pts, &idx, res, fill(fm), false);
             fvox(&vox)
+        }
+        // fill3 / fillset3 <res> <fm> <mesh>: 3-D grid parameters + fill pass.  The surface grid of the real code (a
+        // `SurfaceOnly` run) is emitted before `;;` as an observed input of the fill model.
+        //   fill3    → ni nj nk origin scale g<one VoxelValue code per cell, memory order>
+        //   fillset3 → VoxelSet::voxelize (the entry point VHACD uses): origin scale n (i j k s)*
+        "fill3" | "fillset3" => {
+            use crate::p3::transformation::voxelization::{VoxelizedVolume as VV3, VoxelValue as V};
+            let res = a.u() as u32; let fm = a.u();
+            let (pts, idx) = mesh(a);
+            let so = VV3::voxelize(&pts, &idx, res, FillMode::SurfaceOnly, false);
+            let [ni, nj, nk] = so.resolution();
+            let mut m = String::with_capacity((ni * nj * nk) as usize + 1);
+            m.push('m');
+            for k in 0..nk { for j in 0..nj { for i in 0..ni {
+                m.push(if so.voxel(i, j, k) == V::PrimitiveOnSurface { '1' } else { '0' });
+            } } }
+            let pre = format!("{} {} {} {}", ni, nj, nk, m);
+            if func == "fill3" {
+                let vol = VV3::voxelize(&pts, &idx, res, fill(fm), false);
+                let [ni, nj, nk] = vol.resolution();
+                let mut g = String::with_capacity((ni * nj * nk) as usize + 1);
+                g.push('g');
+                for k in 0..nk { for j in 0..nj { for i in 0..ni {
+                    let c = match vol.voxel(i, j, k) {
+                        V::PrimitiveUndefined => '0', V::PrimitiveOutsideSurfaceToWalk => '1', V::PrimitiveInsideSurfaceToWalk => '2',
+                        V::PrimitiveOnSurfaceNoWalk => '3', V::PrimitiveOnSurfaceToWalk1 => '4', V::PrimitiveOnSurfaceToWalk2 => '5',
+                        V::PrimitiveOutsideSurface => '6', V::PrimitiveInsideSurface => '7', V::PrimitiveOnSurface => '8' };
+                    g.push(c);
+                } } }
+                let scale = vol.scale();
+                let vs: VoxelSet = vol.into();
+                format!("{} ;; {} {} {} {} {} {}", pre, ni, nj, nk, d3::fp(&vs.origin), ff(scale), g)
+            } else {
+                let vox = VoxelSet::voxelize(&pts, &idx, res, fill(fm), false);
+                format!("{} ;; {}", pre, fvox(&vox))
+            }
+        }
+        // tribox3 <mins> <maxs> <a> <b> <c> → 0/1 : query::details::intersection_test_aabb_triangle
+        "tribox3" => {
+            use crate::p3::bounding_volume::Aabb as Aabb3;
+            use crate::p3::shape::Triangle as Tri3;
+            let mins = d3::p(a); let maxs = d3::p(a); let pa = d3::p(a); let pb = d3::p(a); let pc = d3::p(a);
+            let r = crate::p3::query::details::intersection_test_aabb_triangle(&Aabb3::new(mins, maxs), &Tri3::new(pa, pb, pc));
+            b(r).to_string()
+        }
+        // vox3grid <res> <fm> <mesh> → ni nj nk origin scale g<codes>: the whole 3-D VoxelizedVolume, no observed input
+        "vox3grid" => {
+            use crate::p3::transformation::voxelization::{VoxelizedVolume as VV3, VoxelValue as V};
+            let res = a.u() as u32; let fm = a.u();
+            let (pts, idx) = mesh(a);
+            let vol = VV3::voxelize(&pts, &idx, res, fill(fm), false);
+            let [ni, nj, nk] = vol.resolution();
+            let mut g = String::with_capacity((ni * nj * nk) as usize + 1);
+            g.push('g');
+            for k in 0..nk { for j in 0..nj { for i in 0..ni {
+                let c = match vol.voxel(i, j, k) {
+                    V::PrimitiveUndefined => '0', V::PrimitiveOutsideSurfaceToWalk => '1', V::PrimitiveInsideSurfaceToWalk => '2',
+                    V::PrimitiveOnSurfaceNoWalk => '3', V::PrimitiveOnSurfaceToWalk1 => '4', V::PrimitiveOnSurfaceToWalk2 => '5',
+                    V::PrimitiveOutsideSurface => '6', V::PrimitiveInsideSurface => '7', V::PrimitiveOnSurface => '8' };
+                g.push(c);
+            } } }
+            let scale = vol.scale();
+            let vs: VoxelSet = vol.into();
+            format!("{} {} {} {} {} {}", ni, nj, nk, d3::fp(&vs.origin), ff(scale), g)
         }
         // voxelize2 <res> <fill> <npts> pts <nedges> edges → origin scale n (i j s)*
         "voxelize2" => {
@@ -397,6 +496,151 @@ fn gen_tie_poly2(r: &mut Rng, lat: bool) -> Vec<d2::Point<f64>> {
     raw.iter().map(|(x, y)| d2::Point::new(x * e + tx, y * e + ty)).collect()
 }
 
+
+// ---------------------------------------------------------------------------------------------------------------
+// 3-D fill families: closed meshes with concavities opening toward each of the six faces of the bounding box
+// (cups / bells / bowls with the rim flush with that face), tunnels, sealed cavities, nested closed shells.
+
+/// `n` points of a ring at height `y`: for `n == 4` the exact corners `(±a, ±a)`, otherwise a regular n-gon of radius `a`
+fn ring(n: usize, a: f64, y: f64) -> Vec<P3> {
+    if n == 4 { vec![P3::new(a, y, a), P3::new(-a, y, a), P3::new(-a, y, -a), P3::new(a, y, -a)] }
+    else { (0..n).map(|k| { let t = 2.0 * std::f64::consts::PI * k as f64 / n as f64; P3::new(a * t.cos(), y, a * t.sin()) }).collect() }
+}
+/// quads between two rings of `n` points starting at `r0`, `r1`
+fn band(idx: &mut Vec<[u32; 3]>, n: u32, r0: u32, r1: u32) {
+    for k in 0..n { let k1 = (k + 1) % n; idx.push([r0 + k, r0 + k1, r1 + k1]); idx.push([r0 + k, r1 + k1, r1 + k]); }
+}
+fn cap(idx: &mut Vec<[u32; 3]>, n: u32, r0: u32) { for k in 1..n - 1 { idx.push([r0, r0 + k, r0 + k + 1]); } }
+/// A closed one-piece cup standing on its rim (canonical: opening toward −y, rim in the plane y = 0): outer wall from the
+/// rim (radius `ro0`) up to the outer top (radius `ro1`, height `h`), inner wall from the rim (radius `ri0`) up to the
+/// inner ceiling (radius `ri1`, height `hi < h`).  `ro1 < ro0`: bell, `ro1 > ro0`: flared bowl, equal: straight cup.
+/// `through`: no ceiling — the inner wall goes up to the top face: a tunnel / pipe open at both ends.
+fn cup(n: usize, ro0: f64, ro1: f64, ri0: f64, ri1: f64, h: f64, hi: f64, through: bool) -> (Vec<P3>, Vec<[u32; 3]>) {
+    let mut pts = Vec::new(); let mut idx = Vec::new(); let nn = n as u32;
+    pts.extend(ring(n, ro0, 0.0)); pts.extend(ring(n, ro1, h)); pts.extend(ring(n, ri0, 0.0));
+    pts.extend(ring(n, ri1, if through { h } else { hi }));
+    band(&mut idx, nn, 0, nn);          // outer wall
+    band(&mut idx, nn, 2 * nn, 0);      // rim annulus
+    band(&mut idx, nn, 3 * nn, 2 * nn); // inner wall
+    if through { band(&mut idx, nn, nn, 3 * nn); } else { cap(&mut idx, nn, nn); cap(&mut idx, nn, 3 * nn); }
+    (pts, idx)
+}
+/// exact signed coordinate permutation taking the canonical opening direction −y to face `dir` of the bounding box
+/// (0: −x, 1: +x, 2: −y, 3: +y, 4: −z, 5: +z)
+fn orient6(m: &mut (Vec<P3>, Vec<[u32; 3]>), dir: usize) {
+    for p in m.0.iter_mut() {
+        let (x, y, z) = (p.x, p.y, p.z);
+        *p = match dir { 0 => P3::new(y, z, x), 1 => P3::new(-y, z, x), 2 => P3::new(x, y, z), 3 => P3::new(x, -y, z), 4 => P3::new(z, x, y), _ => P3::new(z, x, -y) };
+    }
+}
+fn boxmesh(lo: [f64; 3], hi: [f64; 3]) -> (Vec<P3>, Vec<[u32; 3]>) {
+    let he = d3::Vector::new((hi[0] - lo[0]) * 0.5, (hi[1] - lo[1]) * 0.5, (hi[2] - lo[2]) * 0.5);
+    shifted(Cuboid::new(he).to_trimesh(), d3::Vector::new((hi[0] + lo[0]) * 0.5, (hi[1] + lo[1]) * 0.5, (hi[2] + lo[2]) * 0.5))
+}
+
+/// returns (family name, resolution, mesh)
+pub fn gen_fill3(r: &mut Rng, lat: bool, it: usize) -> (&'static str, u32, (Vec<P3>, Vec<[u32; 3]>)) {
+    let dir = it % 6;
+    match (it / 6) % 6 {
+        // cups, bells, bowls, pipes toward each of the six faces
+        0 | 1 | 2 => {
+            let n = if lat || r.bool() { 4 } else { *r.pick(&[5usize, 6, 8, 12]) };
+            let through = r.below(5) == 0;
+            if lat {
+                // integer geometry, scale exactly 1: every face lies on a plane of voxel centres
+                let a = *r.pick(&[3.0f64, 4.0, 5.0, 6.0]); let t = *r.pick(&[1.0f64, 2.0]);
+                // half of the cups are longest along the opening axis: that axis is then the reference axis of the grid, which is
+                // tight on BOTH ends, so the rim is flush with the grid face also for openings toward +x, +y, +z
+                let h = if r.bool() { 2.0 * a + *r.pick(&[1.0f64, 2.0, 4.0]) } else { *r.pick(&[3.0f64, 4.0, 6.0, 9.0, 12.0]) };
+                let hi = (h - t).max(1.0);
+                let shape = r.below(3);
+                let (ro1, ri1) = match shape { 0 => (a, a - t), 1 => (a - 1.0, a - t - 1.0), _ => (a + 1.0, a - t + 1.0) };
+                let mut m = cup(4, a, ro1, a - t, ri1.max(1.0), h, hi, through);
+                orient6(&mut m, dir);
+                let sh = d3::Vector::new(r.range(-8, 8) as f64, r.range(-8, 8) as f64, r.range(-8, 8) as f64);
+                let m = shifted(m, sh);
+                let e = extents3(&m.0); let big = e[0].max(e[1]).max(e[2]);
+                let res = if r.below(4) == 0 { *r.pick(&[6u32, 9, 14, 20]) } else { big as u32 + 1 };
+                (if through { "pipe-lattice" } else { "cup-lattice" }, res, m)
+            } else {
+                let a = r.uniform(1.0, 3.0); let t = a * r.uniform(0.12, 0.35); let h = a * r.uniform(0.6, 3.0);
+                let hi = h - t.min(0.5 * h);
+                let f = *r.pick(&[1.0, 1.0, 0.7, 0.5, 1.3]);
+                let mut m = cup(n, a, a * f, a - t, (a - t) * f, h, hi, through);
+                orient6(&mut m, dir);
+                if r.below(5) == 0 { let iso = d3::gen_iso(r, false, 5.0); transform(&mut m, &iso, &d3::Vector::new(1.0, 1.0, 1.0)); }
+                else { let sh = d3::Vector::new(r.uniform(-5.0, 5.0), r.uniform(-5.0, 5.0), r.uniform(-5.0, 5.0)); m = shifted(m, sh); }
+                (if through { "pipe" } else { "cup" }, *r.pick(&[8u32, 10, 12, 16, 20, 24]), m)
+            }
+        }
+        // nested closed axis-aligned shells (solid ⊃ cavity ⊃ island ⊃ ..), optionally with small cubes at two opposite
+        // corners of the bounding box (then no shell is flush with a face of the grid)
+        3 | 4 => {
+            let levels = 1 + r.below(4) as usize;                 // 1..4 shells
+            let gap = if lat { 2.0f64 } else { r.uniform(1.6, 2.6) };
+            let pad = r.below(4) != 0;
+            let core = [r.range(2, 5) as f64, r.range(2, 5) as f64, r.range(2, 5) as f64];
+            let off = if pad { 3.0 } else { 0.0 };
+            let mut lo = [off; 3]; let mut hi = [0.0; 3];
+            for c in 0..3 { hi[c] = off + core[c] + 2.0 * gap * (levels as f64 - 1.0); }
+            let total: Vec<f64> = (0..3).map(|c| hi[c] + off).collect();
+            let mut m = boxmesh(lo, hi);
+            for _ in 1..levels { for c in 0..3 { lo[c] += gap; hi[c] -= gap; } m = concat(m, boxmesh(lo, hi)); }
+            if pad {
+                m = concat(m, boxmesh([0.0; 3], [1.0; 3]));
+                m = concat(m, boxmesh([total[0] - 1.0, total[1] - 1.0, total[2] - 1.0], [total[0], total[1], total[2]]));
+            }
+            let big = total[0].max(total[1]).max(total[2]);
+            let (res, m) = if lat { (big as u32 + 1, shifted(m, d3::Vector::new(r.range(-8, 8) as f64, r.range(-8, 8) as f64, r.range(-8, 8) as f64))) }
+                else { let s = r.logu(0.2, 5.0); let mut m = m; transform(&mut m, &d3::Isometry::translation(r.uniform(-5.0, 5.0), r.uniform(-5.0, 5.0), r.uniform(-5.0, 5.0)), &d3::Vector::new(s, s, s));
+                       (((big * r.uniform(0.9, 1.6)) as u32 + 1).min(28), m) };
+            (if pad { "nested-padded" } else { "nested-flush" }, res, m)
+        }
+        // a cup inside a sealed cavity of a solid block / a cup with a small closed solid standing in its opening
+        _ => {
+            let a = 4.0; let t = 1.0; let h = *r.pick(&[4.0f64, 6.0]);
+            let mut m = cup(4, a, a, a - t, a - t, h, h - t, false);
+            if r.bool() { m = concat(m, boxmesh([-1.0, 0.0, -1.0], [1.0, (h - t - 1.0).max(1.0) - if r.bool() { 0.0 } else { 1.0 }, 1.0])); }
+            orient6(&mut m, dir);
+            let mut m = if r.bool() { let e = 3.0 + a.max(h); concat(m, boxmesh([-e, -e, -e], [e, e, e])) } else { m };
+            let e = extents3(&m.0); let big = e[0].max(e[1]).max(e[2]);
+            let res = if lat { big as u32 + 1 } else { *r.pick(&[10u32, 14, 18]) };
+            if !lat { let s = r.logu(0.2, 5.0); transform(&mut m, &d3::Isometry::translation(r.uniform(-5.0, 5.0), r.uniform(-5.0, 5.0), r.uniform(-5.0, 5.0)), &d3::Vector::new(s, s, s)); }
+            ("cup-composite", res, m)
+        }
+    }
+}
+
+/// boxes and triangles for the 3-D cell predicate: unit cells and generic boxes; triangles through corners / along edges /
+/// in face planes, degenerate (point, segment), tiny, grazing a corner or an edge, large ones cutting through, far away
+fn gen_box_tri(r: &mut Rng, lat: bool) -> ([f64; 3], [f64; 3], [[f64; 3]; 3]) {
+    let (c, h): ([f64; 3], [f64; 3]) = if r.bool() { ([r.range(0, 6) as f64, r.range(0, 6) as f64, r.range(0, 6) as f64], [0.5; 3]) }
+        else if lat { ([r.lattice(16, 2), r.lattice(16, 2), r.lattice(16, 2)], [*r.pick(&[0.25, 0.5, 1.0, 1.5]), *r.pick(&[0.25, 0.5, 1.0, 2.0]), *r.pick(&[0.5, 1.0])]) }
+        else { ([r.uniform(-5.0, 5.0), r.uniform(-5.0, 5.0), r.uniform(-5.0, 5.0)], [r.logu(0.01, 10.0), r.logu(0.01, 10.0), r.logu(0.01, 10.0)]) };
+    let mn = [c[0] - h[0], c[1] - h[1], c[2] - h[2]]; let mx = [c[0] + h[0], c[1] + h[1], c[2] + h[2]];
+    let corner = |r: &mut Rng| [if r.bool() { mn[0] } else { mx[0] }, if r.bool() { mn[1] } else { mx[1] }, if r.bool() { mn[2] } else { mx[2] }];
+    let rnd = |r: &mut Rng| if lat { [c[0] + r.lattice(12, 2), c[1] + r.lattice(12, 2), c[2] + r.lattice(12, 2)] }
+        else { [c[0] + r.uniform(-3.0, 3.0) * h[0], c[1] + r.uniform(-3.0, 3.0) * h[1], c[2] + r.uniform(-3.0, 3.0) * h[2]] };
+    let dirv = |r: &mut Rng| if lat { [*r.pick(&[1.0, -1.0, 0.5, 2.0, 0.0]), *r.pick(&[1.0, -1.0, 0.5, -2.0, 0.0]), *r.pick(&[1.0, -1.0, 0.0, 3.0])] }
+        else { [r.uniform(-1.0, 1.0), r.uniform(-1.0, 1.0), r.uniform(-1.0, 1.0)] };
+    let add = |p: [f64; 3], d: [f64; 3], t: f64| [p[0] + t * d[0], p[1] + t * d[1], p[2] + t * d[2]];
+    let tri = match r.below(10) {
+        0 | 1 => [rnd(r), rnd(r), rnd(r)],
+        2 => { let p = corner(r); let d = dirv(r); let e = dirv(r); [p, add(p, d, 1.0), add(p, e, 1.0)] }       // a vertex on a corner
+        3 => { let p = corner(r); let d = dirv(r); let e = dirv(r); let m = add(add(p, d, -1.0), e, -0.5); [m, add(p, d, 2.0), add(p, e, 2.0)] } // corner inside / on the triangle
+        4 => { let p = rnd(r); match r.below(3) { 0 => [p, p, p], 1 => { let q = rnd(r); [p, q, q] } _ => { let q = rnd(r); [p, add(p, [q[0] - p[0], q[1] - p[1], q[2] - p[2]], 0.5), q] } } } // degenerate
+        5 => { let p = corner(r); let e = *r.pick(&[1e-16, 5e-17, 2e-16, 1e-15, 1e-12]); [p, add(p, dirv(r), e), add(p, dirv(r), e)] }                       // tiny at a corner
+        6 => { let ax = r.below(3) as usize; let v = *r.pick(&[mn[ax], mx[ax], c[ax], mn[ax] - h[ax], mx[ax] + 0.25 * h[ax]]);                      // in a plane parallel to a face
+               let mut t = [rnd(r), rnd(r), rnd(r)]; for q in t.iter_mut() { q[ax] = v; } t }
+        7 => { let p = corner(r); let d = dirv(r); let e = dirv(r); let n = [d[1] * e[2] - d[2] * e[1], d[2] * e[0] - d[0] * e[2], d[0] * e[1] - d[1] * e[0]];
+               let s = r.uniform(-1e-9, 1e-9); let p = add(p, n, s);                                                                               // plane grazing a corner
+               [add(add(p, d, -2.0), e, -1.0), add(p, d, 3.0), add(p, e, 3.0)] }
+        8 => { let s = 20.0; let d = dirv(r); let e = dirv(r); let p = rnd(r); [add(add(p, d, -s), e, -s), add(p, d, s), add(p, e, s)] }               // large triangle through / past the box
+        _ => [corner(r), rnd(r), rnd(r)],
+    };
+    (mn, mx, tri)
+}
+
 pub fn gen(r: &mut Rng, thorough: bool) -> Vec<(String, String)> {
     let n = if thorough { 240 } else { 60 };
     let mut v = Vec::new();
@@ -410,6 +654,8 @@ pub fn gen(r: &mut Rng, thorough: bool) -> Vec<(String, String)> {
         let pds = *r.pick(&[1u32, 2, 4]); let hds = *r.pick(&[1u32, 2, 4]);
         let ms = hmesh(&m);
         v.push(("acd3".into(), format!("{} {} {} {} {} {} {}", maxh, res, fm, hx(conc), pds, hds, ms)));
+        v.push(("parts3".into(), format!("{} {} {} {} {} {} {}", maxh, res, fm, hx(conc), pds, hds, ms)));
+        if it % 2 == 1 { v.push(("hullsample3".into(), format!("{} {} {} {}", res.min(12), fm, [1u32, 2, 3, 5, 0, 64][(it / 2) % 6], ms))); }
         if it % 3 == 0 { v.push(("hulls3".into(), format!("{} {} {} {} {} {} {}", maxh, res.min(12), fm, hx(conc), pds, hds, ms))); }
         // voxelize3: the last flag tells the oracle whether the mesh is convex (fill check applies)
         v.push(("voxelize3".into(), format!("{} {} {} {}", res, fm, ms, if convex { "1" } else { "0" })));
@@ -444,6 +690,41 @@ pub fn gen(r: &mut Rng, thorough: bool) -> Vec<(String, String)> {
             v.push(("voxelize2".into(), format!("{} {} {} {} {} {}", res2, it % 3, n, poly.iter().map(d2::hp).collect::<Vec<_>>().join(" "), n,
                 (0..n).map(|i| format!("{} {}", i, (i + 1) % n)).collect::<Vec<_>>().join(" "))));
         }
+    }
+    // ---- 3-D grid parameters + fill pass (ModelFill3.lean) ----
+    let nf = if thorough { 720 } else { 144 };
+    let mut fam: std::collections::BTreeMap<String, usize> = std::collections::BTreeMap::new();
+    for it in 0..nf {
+        let lat = (it / 36) % 2 == 0;
+        let (name, res, m) = gen_fill3(r, lat, it);
+        let fm = match name { "nested-padded" | "nested-flush" => [2, 1, 2, 0][(it / 72 + it) % 4], _ => [1, 1, 2, 1, 0, 1][(it / 6 + it / 36) % 6] };
+        *fam.entry(format!("{}/fm{}", name, fm)).or_default() += 1;
+        let args = format!("{} {} {}", res, fm, hmesh(&m));
+        v.push(("fill3".into(), args.clone()));
+        if it % 2 == 0 { v.push(("fillset3".into(), args)); }
+        // the same shapes through the whole VHACD pipeline (plain flood fill is what `decompose` uses by default)
+        if it % 8 == 3 && res <= 16 {
+            v.push(("acd3".into(), format!("{} {} {} {} {} {} {}", 4, res, 1, hx(0.01), 2, 2, hmesh(&m))));
+            v.push(("parts3".into(), format!("{} {} {} {} {} {} {}", *r.pick(&[2u32, 4, 8]), res, 1, hx(0.01), *r.pick(&[1u32, 2, 4]), 2, hmesh(&m))));
+        }
+    }
+    if std::env::var("VERIF_FAMILIES").is_ok() { eprintln!("C18 fill3 families: {:?}", fam); }
+    // ---- 3-D voxelizer model (ModelVox3.lean): the triangle/box predicate and whole grids ----
+    let nb3 = if thorough { 6000 } else { 1200 };
+    for it in 0..nb3 {
+        let (mn, mx, t) = gen_box_tri(r, it % 2 == 0);
+        let h3 = |p: &[f64; 3]| format!("{} {} {}", hx(p[0]), hx(p[1]), hx(p[2]));
+        v.push(("tribox3".into(), format!("{} {} {} {} {}", h3(&mn), h3(&mx), h3(&t[0]), h3(&t[1]), h3(&t[2]))));
+    }
+    let nv3 = if thorough { 300 } else { 40 };
+    for it in 0..nv3 {
+        let lat = it % 2 == 0;
+        let (res, m) = match it % 5 {
+            0 | 1 => { let (m, _) = gen_mesh(r, lat); (*r.pick(&[4u32, 6, 8, 10]), m) }
+            2 => { let (m, _) = gen_tie_mesh(r, lat, (it / 5) % 4, (it / 20) % 3, 8); (*r.pick(&[4u32, 5, 8]), m) }
+            _ => { let (_, res, m) = gen_fill3(r, lat, it + it / 5); (res.min(12), m) }
+        };
+        v.push(("vox3grid".into(), format!("{} {} {}", res, [1, 2, 0, 1][(it / 5) % 4], hmesh(&m))));
     }
     // ---- 2-D voxelizer model (ModelVox.lean) ----
     let nb = if thorough { 6000 } else { 1200 };
